@@ -30,7 +30,6 @@ theorem distributeGauge_written {thr : MinVal} {locks : List Lock} {g : Gauge} {
       (gaugeLocks g locks).isEmpty = false ∧
       (((remain.isEmpty = true ∨ isSpam remain = true) ∧ total = [] ∧ pays = []) ∨
        (remain.isEmpty = false ∧ isSpam remain = false ∧ 0 < lockSum (gaugeLocks g locks) ∧
-        thr.fails remain = false ∧
         pays = lockPays (minFilter thr) (minFilter (thr.after remain)) remain (lockSum (gaugeLocks g locks) * e) (gaugeLocks g locks) ∧
         total = sumPays pays)) := by
   unfold distributeGauge at h
@@ -59,12 +58,9 @@ theorem distributeGauge_written {thr : MinVal} {locks : List Lock} {g : Gauge} {
             by_cases h4 : lockSum (gaugeLocks g locks) = 0
             · rw [if_pos h4] at h; cases h
             · rw [if_neg h4] at h
-              by_cases h5 : thr.fails remain = true
-              · rw [if_pos h5] at h; cases h
-              · rw [if_neg h5] at h
-                injection h with h; injection h with h; injection h with ha hb
-                have := lockSum_nonneg (gaugeLocks g locks)
-                exact Or.inr ⟨by simpa using h2, by simpa using h3, by omega, by simpa using h5, hb.symm, by rw [← ha, hb]⟩
+              injection h with h; injection h with h; injection h with ha hb
+              have := lockSum_nonneg (gaugeLocks g locks)
+              exact Or.inr ⟨by simpa using h2, by simpa using h3, by omega, hb.symm, by rw [← ha, hb]⟩
 
 /-- the outcome that leaves the record untouched: no qualifying lock (or an all-zero lock sum). -/
 theorem distributeGauge_untouched {thr : MinVal} {locks : List Lock} {g : Gauge}
@@ -85,7 +81,7 @@ theorem distributeGauge_untouched {thr : MinVal} {locks : List Lock} {g : Gauge}
           · cases h
           · split at h
             · rename_i h4; exact Or.inr h4
-            · split at h <;> cases h
+            · cases h
 
 /-- with at least one qualifying lock the record IS written (lock amounts are positive in reality; here: lock sum ≠ 0). -/
 theorem distributeGauge_writes {thr : MinVal} {locks : List Lock} {g : Gauge} {r : Option (Coins × List Pay)}
@@ -105,7 +101,7 @@ theorem distributeGauge_total {thr : MinVal} {locks : List Lock} {g : Gauge} {to
     ∀ d, 0 ≤ amountOf total d ∧ amountOf g.distributed d + amountOf total d ≤ amountOf g.coins d := by
   obtain ⟨remain, e, hrem, he, _, hcase⟩ := distributeGauge_written h
   obtain ⟨hrv, hra⟩ := subCoins_spec hg.vc hg.vd hrem
-  rcases hcase with ⟨_, ht, hp⟩ | ⟨_, _, hS, _, hp, ht⟩
+  rcases hcase with ⟨_, ht, hp⟩ | ⟨_, _, hS, hp, ht⟩
   · subst ht; subst hp
     refine ⟨rfl, fun p hp => absurd hp List.not_mem_nil, fun d => rfl, fun d => ?_⟩
     have := hg.le d
